@@ -1,8 +1,318 @@
-//! C05 — generator and driver of the real API.
+//! C05 — FM-index backward search.
+//!
+//! `c05 <s1>/<s2>/… a:<alphabet hex> k:<occ rate> s:<sa sampling rate> m:<o|b|a> <p1>/<p2>/…`
+//!   text = s1 $ s2 $ … sn $   (every sequence is followed by the sentinel `$`)
+//!   m: how the components are handed to `FMIndex::new` / `SuffixArray::sample`
+//!      o = owned `Vec`s, b = borrowed `&`, a = shared `Arc`
+//! observation: `<suffix array> <r1>/<r2>/…`, one `r` per pattern:
+//!   `A`                                     Absent
+//!   `C:<lo>:<hi>:<occ full>:<occ sampled>`  Complete(Interval{lo,hi}); `Interval::occ` through the full array and
+//!   `P:<lo>:<hi>:<l>:<occ full>:<occ sampled>`   through the `SampledSuffixArray`; `!` when the interval is not
+//!                                           inside the array (then `occ` is not called: it would panic)
 use crate::util::*;
+use bio::alphabets::Alphabet;
+use bio::data_structures::bwt::{bwt, less, Less, Occ, BWT};
+use bio::data_structures::fmindex::{BackwardSearchResult, FMIndex, FMIndexable, Interval};
+use bio::data_structures::suffix_array::{suffix_array, SuffixArray};
+use std::sync::Arc;
 
-pub fn gen(_tier: &str, _rng: &mut Rng, _out: &mut Vec<String>) {}
+pub const SENTINEL: u8 = b'$';
 
-pub fn exec(_toks: &[&str]) -> Result<String, String> {
-    Err("unimplemented".into())
+pub fn text_of(seqs: &[Vec<u8>]) -> Vec<u8> {
+    let mut t = Vec::new();
+    for s in seqs {
+        t.extend_from_slice(s);
+        t.push(SENTINEL);
+    }
+    t
+}
+
+fn occ_str<SA: SuffixArray>(iv: &Interval, sa: &SA) -> String {
+    if iv.lower > iv.upper || iv.upper > sa.len() {
+        "!".to_string()
+    } else {
+        join(&iv.occ(sa), ",")
+    }
+}
+
+fn show<SA: SuffixArray, SB: SuffixArray>(r: BackwardSearchResult, full: &SA, samp: &SB) -> String {
+    match r {
+        BackwardSearchResult::Absent => "A".to_string(),
+        BackwardSearchResult::Complete(iv) => {
+            format!("C:{}:{}:{}:{}", iv.lower, iv.upper, occ_str(&iv, full), occ_str(&iv, samp))
+        }
+        BackwardSearchResult::Partial(iv, l) => {
+            format!("P:{}:{}:{}:{}:{}", iv.lower, iv.upper, l, occ_str(&iv, full), occ_str(&iv, samp))
+        }
+    }
+}
+
+pub fn exec(toks: &[&str]) -> Result<String, String> {
+    if toks.len() != 6 {
+        return Err("arity".into());
+    }
+    let seqs: Vec<Vec<u8>> = split_ne(toks[0], '/').into_iter().map(unhex).collect::<Result<_, _>>()?;
+    let alpha = unhex(kv(toks[1], "a")?)?;
+    let k: u32 = parse(kv(toks[2], "k")?)?;
+    let s: usize = parse(kv(toks[3], "s")?)?;
+    let mode = kv(toks[4], "m")?;
+    let pats: Vec<Vec<u8>> = split_ne(toks[5], '/').into_iter().map(unhex).collect::<Result<_, _>>()?;
+    if alpha.is_empty() || alpha.iter().any(|&c| c <= SENTINEL) {
+        return Err("alphabet must be non-empty and above the sentinel".into());
+    }
+    if seqs.iter().flatten().any(|c| !alpha.contains(c)) {
+        return Err("text symbol outside the alphabet".into());
+    }
+    if pats.iter().any(|p| p.is_empty() || p.iter().any(|c| !alpha.contains(c))) {
+        return Err("pattern empty or outside the alphabet".into());
+    }
+    if k == 0 || s == 0 {
+        return Err("rates must be positive".into());
+    }
+    let text = text_of(&seqs);
+    let alphabet = Alphabet::new(&alpha);
+    let sa = suffix_array(&text);
+    let bw: BWT = bwt(&text, &sa);
+    let le: Less = less(&bw, &alphabet);
+    let oc = Occ::new(&bw, k, &alphabet);
+    let mut outs = Vec::with_capacity(pats.len());
+    match mode {
+        "b" => {
+            let fm = FMIndex::new(&bw, &le, &oc);
+            let samp = sa.sample(&text, &bw, &le, &oc, s);
+            for p in &pats {
+                outs.push(show(fm.backward_search(p.iter()), &sa, &samp));
+            }
+        }
+        "o" => {
+            let fm = FMIndex::new(bw.clone(), le.clone(), oc.clone());
+            let samp = sa.sample(&text, bw.clone(), le.clone(), oc.clone(), s);
+            for p in &pats {
+                outs.push(show(fm.backward_search(p.iter()), &sa, &samp));
+            }
+        }
+        "a" => {
+            let (ab, al, ao) = (Arc::new(bw), Arc::new(le), Arc::new(oc));
+            let fm = FMIndex::new(ab.clone(), al.clone(), ao.clone());
+            let samp = sa.sample(&text, ab.clone(), al.clone(), ao.clone(), s);
+            for p in &pats {
+                outs.push(show(fm.backward_search(p.iter()), &sa, &samp));
+            }
+        }
+        _ => return Err("mode".into()),
+    }
+    Ok(format!("{} {}", join(&sa, ","), outs.join("/")))
+}
+
+// ------------------------------------------------------------------------------------------------ generator
+
+fn alphabet(rng: &mut Rng) -> Vec<u8> {
+    match rng.below(8) {
+        0 => b"a".to_vec(),
+        1 | 2 => b"ab".to_vec(),
+        3 => b"abc".to_vec(),
+        4 => b"ACGT".to_vec(),
+        5 => b"ACGTN".to_vec(),
+        6 => vec![b'%', b'A', 0x7f, 0xff], // the byte right above the sentinel and the largest bytes
+        _ => b"abcde".to_vec(),
+    }
+}
+
+/// one sequence: random, a power of a short word, a Fibonacci word, or all-equal
+fn sequence(rng: &mut Rng, alpha: &[u8], maxlen: usize) -> Vec<u8> {
+    let len = rng.below(maxlen + 1);
+    match rng.below(6) {
+        0 => {
+            let per = 1 + rng.below(3);
+            let w = rng.seq(alpha, per);
+            (0..len).map(|i| w[i % per]).collect()
+        }
+        1 => {
+            let (a, b) = (*rng.pick(alpha), *rng.pick(alpha));
+            let (mut x, mut y) = (vec![a], vec![a, b]);
+            while y.len() < len {
+                let mut z = y.clone();
+                z.extend_from_slice(&x);
+                x = y;
+                y = z;
+            }
+            y.truncate(len);
+            y
+        }
+        2 => vec![*rng.pick(alpha); len],
+        _ => rng.seq(alpha, len),
+    }
+}
+
+const RATES: [u32; 14] = [1, 2, 3, 5, 8, 63, 64, 65, 66, 100, 127, 128, 129, 1000];
+
+fn patterns(rng: &mut Rng, alpha: &[u8], seqs: &[Vec<u8>], text: &[u8], n: usize) -> Vec<Vec<u8>> {
+    let nonempty: Vec<&Vec<u8>> = seqs.iter().filter(|s| !s.is_empty()).collect();
+    let mut pats = Vec::new();
+    let used: Vec<u8> = alpha.iter().copied().filter(|c| text.contains(c)).collect();
+    let unused: Vec<u8> = alpha.iter().copied().filter(|c| !text.contains(c)).collect();
+    while pats.len() < n {
+        let kind = rng.below(12);
+        let sub = |rng: &mut Rng| -> Vec<u8> {
+            if nonempty.is_empty() {
+                return vec![*rng.pick(alpha)];
+            }
+            let s = *rng.pick(&nonempty);
+            let i = rng.below(s.len());
+            let cap = if rng.chance(1, 4) { 40 } else { 6 };
+            let l = 1 + rng.below((s.len() - i).min(cap));
+            s[i..i + l].to_vec()
+        };
+        let p: Vec<u8> = match kind {
+            // substring of one sequence
+            0 | 1 | 2 => sub(rng),
+            // a whole sequence, a prefix, a suffix (next to the sentinels)
+            3 => {
+                if nonempty.is_empty() {
+                    sub(rng)
+                } else {
+                    let s = *rng.pick(&nonempty);
+                    match rng.below(3) {
+                        0 => s.clone(),
+                        1 => s[..1 + rng.below(s.len())].to_vec(),
+                        _ => s[rng.below(s.len())..].to_vec(),
+                    }
+                }
+            }
+            // substring with the first symbol changed: proper suffix occurs, the whole (mostly) does not
+            4 | 5 | 6 => {
+                let mut p = sub(rng);
+                if rng.chance(1, 2) {
+                    let c = *rng.pick(alpha);
+                    p.insert(0, c);
+                } else {
+                    p[0] = *rng.pick(alpha);
+                }
+                if rng.chance(1, 4) {
+                    let extra = 1 + rng.below(3);
+                    let mut q = rng.seq(alpha, extra);
+                    q.extend_from_slice(&p);
+                    p = q;
+                }
+                p
+            }
+            // would match only across a sentinel: end of one sequence followed by the start of another
+            7 => {
+                if nonempty.len() < 1 {
+                    sub(rng)
+                } else {
+                    let a = *rng.pick(&nonempty);
+                    let b = *rng.pick(&nonempty);
+                    let mut p = a[a.len() - 1 - rng.below(a.len().min(3))..].to_vec();
+                    p.extend_from_slice(&b[..1 + rng.below(b.len().min(3))]);
+                    p
+                }
+            }
+            // longer than the text
+            8 => {
+                let l = text.len() + rng.below(4);
+                if rng.chance(1, 2) && !nonempty.is_empty() {
+                    let s = *rng.pick(&nonempty);
+                    (0..l.max(1)).map(|i| s[i % s.len()]).collect()
+                } else {
+                    rng.seq(alpha, l.max(1))
+                }
+            }
+            // symbol of the alphabet that is absent from the text: last (Absent), first or middle (Partial)
+            9 => {
+                if unused.is_empty() {
+                    sub(rng)
+                } else {
+                    let c = *rng.pick(&unused);
+                    let mut p = sub(rng);
+                    match rng.below(4) {
+                        0 => p.push(c),
+                        1 => p.insert(0, c),
+                        2 => {
+                            let i = rng.below(p.len());
+                            p[i] = c
+                        }
+                        _ => p = vec![c],
+                    }
+                    p
+                }
+            }
+            // single symbols (every one of the alphabet over time)
+            10 => {
+                let from_all = used.is_empty() || rng.chance(1, 3);
+                vec![*rng.pick(if from_all { alpha } else { &used })]
+            }
+            _ => {
+                let l = 1 + rng.below(5);
+                rng.seq(alpha, l)
+            }
+        };
+        if !p.is_empty() {
+            pats.push(p);
+        }
+    }
+    pats
+}
+
+fn case(rng: &mut Rng, long: bool, npat: usize, mode: &str) -> String {
+    let alpha = alphabet(rng);
+    let nseq = 1 + rng.below(6);
+    let maxlen = if long { 60 + rng.below(200) } else { rng.below(31) };
+    let seqs: Vec<Vec<u8>> = (0..nseq).map(|_| sequence(rng, &alpha, maxlen)).collect();
+    let text = text_of(&seqs);
+    let k = if rng.chance(1, 10) { 2 * text.len() as u32 } else { *rng.pick(&RATES) };
+    let s = if rng.chance(1, 8) { *rng.pick(&[8usize, 16, 1000]) } else { 1 + rng.below(5) };
+    let pats = patterns(rng, &alpha, &seqs, &text, npat);
+    format!(
+        "{} a:{} k:{} s:{} m:{} {}",
+        seqs.iter().map(|s| hex(s)).collect::<Vec<_>>().join("/"),
+        hex(&alpha),
+        k,
+        s,
+        mode,
+        pats.iter().map(|p| hex(p)).collect::<Vec<_>>().join("/")
+    )
+}
+
+fn enum_seqs(alpha: &[u8], maxlen: usize, minlen: usize) -> Vec<Vec<u8>> {
+    let mut out = vec![];
+    let mut cur: Vec<Vec<u8>> = vec![vec![]];
+    for l in 0..=maxlen {
+        if l >= minlen {
+            out.extend(cur.iter().cloned());
+        }
+        let mut nxt = vec![];
+        for s in &cur {
+            for &a in alpha {
+                let mut t = s.clone();
+                t.push(a);
+                nxt.push(t);
+            }
+        }
+        cur = nxt;
+    }
+    out
+}
+
+pub fn gen(tier: &str, rng: &mut Rng, out: &mut Vec<String>) {
+    let thorough = tier == "thorough";
+    let (n, npat) = if thorough { (8_000, 20) } else { (2_400, 12) };
+    let modes = ["b", "o", "a"];
+    for i in 0..n {
+        // every fourth text is long enough for several Occ checkpoints on each side of the k > 64 switch
+        out.push(case(rng, i % 4 == 3, npat, modes[i % 3]));
+    }
+    if thorough {
+        // exhaustive small scope: all texts over {A,C} ∪ {$} of length ≤ 7 ending in `$` × all patterns of length ≤ 4
+        let pats = enum_seqs(b"AC", 4, 1);
+        let pl = pats.iter().map(|p| hex(p)).collect::<Vec<_>>().join("/");
+        let bodies = enum_seqs(b"AC$", 6, 0);
+        for (j, b) in bodies.iter().enumerate() {
+            let mut t = b.clone();
+            t.push(b'$');
+            let seqs: Vec<String> = t[..t.len() - 1].split(|&c| c == b'$').map(|s| hex(s)).collect();
+            let k = RATES[j % 5];
+            out.push(format!("{} a:4143 k:{} s:{} m:{} {}", seqs.join("/"), k, 1 + j % 3, modes[j % 3], pl));
+        }
+    }
 }
